@@ -28,8 +28,9 @@ from .. import hydrogen as hg
 
 PID = "C15"
 PROOF_FILES = ["theories/Props/C15.v", "theories/Checker/Poly.v", "theories/Proofs/HydroPlane.v",
-               "theories/Proofs/HydroHalfplanes.v", "theories/Proofs/HydroPair.v", "theories/Proofs/HydroForce.v", "theories/Proofs/HydroParallel.v", "theories/Proofs/HydroOrder.v", "theories/Proofs/HydroInside.v", "theories/Proofs/HydroBary.v", "theories/Proofs/HydroSame.v"]
+               "theories/Proofs/HydroHalfplanes.v", "theories/Proofs/HydroPair.v", "theories/Proofs/HydroForce.v", "theories/Proofs/HydroParallel.v", "theories/Proofs/HydroOrder.v", "theories/Proofs/HydroInside.v", "theories/Proofs/HydroBary.v", "theories/Proofs/HydroSame.v", "theories/Proofs/HydroFloatExamples.v"]
 EPS = 2.220446049250313e-16
+BUILD_TARGETS = ["theories/Props/C15.vo", "theories/Model/HydroRun.vo", "theories/Checker/Poly.vo", "theories/Proofs/HydroFloatExamples.vo"]
 
 CERT_HEADER = """From Coq Require Import ZArith QArith List.
 From D3 Require Import Base.Vec Checker.Poly.
@@ -694,8 +695,10 @@ def run(tier, seed, replay=None):
         "orders; or two RigidBody.make_* bodies (stacked / random poses of both / lattice / separated) through "
         "find_contact_surface with either broad phase, every reported contact judged, a sample re-run as single pairs; or "
         "one internal function on crafted exact inputs incl. exact ties of every comparison.  distinct = canonical hash of "
-        "the case; non-trivial = the implementation reported an intersection and poly_cert was evaluated on it (pairs, "
-        "bodies) or the unit call was compared bit for bit")
+        "the case; evaluations and distinct_nontrivial both count CASES (a single pair with both orders, a body pair, a unit call, a "
+        "re-run body contact); non-trivial = the implementation reported an intersection for the case and poly_cert accepted at "
+        "least one of its results, or the unit call was compared with the model; judged results (certificates, contacts, areas) are "
+        "counted separately in certificates_evaluated / body_contacts_judged / areas_checked_against_exact_polygon")
     R.assumptions += [
         "the verdict per reported pair is the Coq theorem poly_cert_sound applied to the implementation's output; universality over inputs comes from generation",
         "order independence and 'reported set = brute force over all pairs' are judged by Python comparisons (vertex sets within 1e-9 L), not by a Coq checker",
@@ -704,7 +707,7 @@ def run(tier, seed, replay=None):
         "harness/compat.py import shim; numpy/numba/OpenBLAS/CPython",
     ]
     R.check_proofs([f for f in PROOF_FILES if (cm.COQ / f).exists()],
-                   build_targets=["theories/Props/C15.vo", "theories/Model/HydroRun.vo", "theories/Checker/Poly.vo"])
+                   build_targets=BUILD_TARGETS)
 
     if replay:
         c = json.loads(open(replay).read())["case"]
@@ -921,7 +924,9 @@ def run(tier, seed, replay=None):
             continue
         bits = hg.parse_coq_value(v)
         if all(bits):
-            distinct.add(cm.canon_hash(allpairs[i] if kind == "pair" else [bodies[i], k]))
+            # one unit everywhere: the generated CASE (a pair case counts once even if both orders pass, a body
+            # case once however many of its contacts pass)
+            distinct.add(cm.canon_hash(allpairs[i] if kind == "pair" else bodies[i]))
             continue
         rejected += 1
         why = [CERT_BITS[j] for j, b in enumerate(bits) if not b]
